@@ -305,6 +305,12 @@ def filterStep (rec : Rec) (c : Call) (p : Pred) (ch : Op) (stopped : Bool) : Re
 
 /-! ### stop_immediately -/
 
+/-- the first error, if any -/
+def firstErr (a b : Option Nat) : Option Nat :=
+  match a with
+  | some e => some e
+  | none => b
+
 def keepErr (o : Outcome) (old : Option Nat) : Option Nat :=
   match o with
   | .error e => some e
@@ -315,7 +321,7 @@ def siOnClean (c : Op) (st : StopImmSt) (outs : List Out) (sig : Option Sig) : R
   match sig with
   | some (.clean e) =>
     (.stopImm c { st with ph := .cleaned, nextErr := none }, outs,
-      some (.clean (match st.nextErr with | some ne => some ne | none => e)))
+      some (.clean (firstErr st.nextErr e)))
   | _ => (.stopImm c st, outs, none)
 
 /-- the child has signalled `sig` (next_receiver::handle_signal / receiver_wrapper) -/
@@ -386,13 +392,13 @@ def TU.res (x : TU) : Res := (.takeUntil x.s x.t x.st, x.outs, x.sig)
 def tuJoin (x : TU) : TU :=
   if x.st.joined then
     { x with st := { x.st with ph := .cleaned },
-             sig := some (.clean (match x.st.srcErr with | some e => some e | none => x.st.trigErr)) }
+             sig := some (.clean (firstErr x.st.srcErr x.st.trigErr)) }
   else { x with st := { x.st with joined := true } }
 
 /-- source_receiver::set_done / set_error -/
 def tuJoinSrc (x : TU) (e : Option Nat) : TU :=
   tuJoin { x with st := { x.st with srcOpDtor := x.st.srcOpDtor + 1, srcCleanDone := true,
-                                    srcErr := (match e with | some v => some v | none => x.st.srcErr) } }
+                                    srcErr := firstErr e x.st.srcErr } }
 
 /-- trigger_receiver::set_done destructs `sourceOp_` (sic); set_error destructs `triggerOp_` -/
 def tuJoinTrig (x : TU) (e : Option Nat) : TU :=
